@@ -89,6 +89,7 @@ def reuse_programs():
     yield "dag8", ('Signal x = ("signal-A", 6);\nSignal r = ((x > 5) : 7) && (x < 100);\n')
     yield "dag9", ('Signal x = ("signal-A", 6);\nSignal y = ("signal-B", 4);\nSignal r = (x > 2) && (y > 2) && (x < 50);\n'
                    'Signal q = (x > 2) || (y > 2) || (x == 0);\n')
+    yield "dag11", ('Signal a = ("signal-A", 3);\nSignal b = ("signal-A", 7);\nSignal c = (5 < a) : b;\nSignal d = (a >= 2) : b;\n')
     yield "dag10", ('Signal x = ("signal-A", 6);\nSignal r = x * x * x;\nSignal q = -x + x;\n')
 
 
@@ -438,3 +439,71 @@ def c05_scope(tier):
               "m.write(7, set=s1, reset=r1);\nSignal out = m.read();\n", {"a": [0, 1], "b": [0, 1]}))
     P.append(("lamp", X + M + 'm.write(1, set=x < 20, reset=x >= 80);\nEntity l = place("small-lamp", 0, 0);\nl.enable = m.read() > 0;\nSignal out = m.read();\n', xb))
     return P
+
+
+# ---------------------------------------------------------------------------------------------
+def c14_scope(tier):
+    """(id, source): every program violates exactly one documented static rule; the construct is
+    embedded at top level, in a called function body, in a loop body, in a nested position."""
+    PRE = 'Signal ok1 = ("signal-A", 1);\nSignal ok2 = ok1 + 1;\n'
+    POST = "Signal ok3 = ok2 * 2;\n"
+    # rule -> list of statement snippets that violate it (as statements in some scope)
+    RULES = {
+        "undefined-variable": ["Signal bad = nope + 1;"],
+        "undefined-function": ["Signal bad = nofunc(3);"],
+        "undefined-memory": ["Signal bad = nomem.read();", "nomem.write(1);"],
+        "undefined-entity": ["noent.enable = 1;"],
+        "redefinition": ["Signal dup = 1;\nSignal dup = 2;"],
+        "assign-immutable": ["int k = 1;\nk = 2;"] if False else ["Signal q = 1;\nq = 2;"],
+        "wrong-kind-int": ["int n = ok1;"],
+        "wrong-kind-bundle": ["Bundle b = ok1 + 1;"],
+        "wrong-kind-signal": ['Signal s = { ("signal-A", 1) };'],
+        "arg-count": ["Signal bad = helper(1, 2, 3);"],
+        "recursion": ["func rec(Signal a) { return rec(a) + 1; }\nSignal bad = rec(1);",
+                      "func ra(Signal a) { return rb(a) + 1; }\nfunc rb(Signal a) { return ra(a) + 1; }\nSignal bad = ra(1);"],
+        "bundle-duplicate": ['Bundle b = { ("signal-A", 1), ("signal-A", 2) };', 'Bundle b = { ok1, ("signal-A", 2) };',
+                             'Bundle bx = { ("signal-B", 1), ("signal-C", 2) };\nBundle b = { bx, ("signal-B", 9) };',
+                             'Bundle bx = { ("signal-B", 1) };\nBundle by = { ("signal-B", 3), ("signal-D", 4) };\nBundle b = { bx, by };',
+                             'Bundle bx = { ("signal-B", 1) };\nBundle b = { bx, bx };'],
+        "bundle-op-bundle": ['Bundle b1 = { ("signal-A", 1) };\nBundle b2 = { ("signal-B", 1) };\nBundle b3 = b1 + b2;'],
+        "bare-bundle-comparison": ['Bundle b1 = { ("signal-A", 1) };\nSignal bad = b1 > 3;'],
+        "bundle-select-absent": ['Bundle b1 = { ("signal-A", 1) };\nSignal bad = b1["signal-Z"];'],
+        "unknown-signal": ['Signal bad = ("not-a-real-signal", 1);', 'Signal bad = ok1 | "not-a-real-signal";'],
+        "reserved-signal": ['Signal bad = ("signal-W", 1);', 'Signal bad = ok1 | "signal-W";', 'Memory mw: "signal-W";'],
+        "memory-type-contradiction": ['Memory mt: "signal-M";\nmt.write(("signal-B", 1));'],
+        "second-write": ['Memory m2: "signal-M";\nm2.write(1 | "signal-M");\nm2.write(2 | "signal-M");'],
+        "zero-step": ["for z in 0..3 step 0 {\n  Signal zz = 1;\n}", "int st = 0;\nfor z in 0..3 step st {\n  Signal zz = 1;\n}"],
+        "non-comparison-before-colon": ["Signal bad = (ok1 + 1) : 5;"],
+        "syntax-error": ["Signal bad = = 3;", "Signal bad 3;", "for i in { }"],
+    }
+    HELPERS = "func helper(Signal a) { return a + 1; }\n"
+    out = []
+
+    def indent(snip, n=2):
+        return "\n".join(" " * n + ln for ln in snip.split("\n"))
+
+    embeddings = {
+        "top": lambda s: HELPERS + PRE + s + "\n" + POST,
+        "top-first": lambda s: HELPERS + s + "\n" + PRE + POST,
+        "func-body": lambda s: HELPERS + PRE + "func host(Signal p) {\n" + indent(s) + "\n  return p;\n}\nSignal call = host(ok1);\n" + POST,
+        "loop-body": lambda s: HELPERS + PRE + "for it in 0..2 {\n" + indent(s) + "\n}\n" + POST,
+        "func-after-return": lambda s: HELPERS + PRE + "func host(Signal p) {\n  Signal t = p + 1;\n  return t;\n" + indent(s) + "\n}\nSignal call = host(ok1);\n" + POST,
+        "func-in-loop": lambda s: HELPERS + PRE + "func host(Signal p) {\n" + indent(s) + "\n  return p;\n}\nfor it in 0..2 {\n  Signal c = host(ok1);\n}\n" + POST,
+        "nested-loop": lambda s: HELPERS + PRE + "for i1 in 0..2 {\n  for i2 in [1, 2] {\n" + indent(s, 4) + "\n  }\n}\n" + POST,
+    }
+    quick_emb = ["top", "func-body", "loop-body", "func-after-return"]
+    for rule, snips in RULES.items():
+        for si, sn in enumerate(snips):
+            for ename, fn in embeddings.items():
+                if tier == "quick" and ename not in quick_emb:
+                    continue
+                if rule == "recursion" and ename != "top":
+                    continue
+                out.append((f"{rule}#{si}@{ename}", fn(sn)))
+    return out
+
+
+def c14_accepted_hosts():
+    """Controls: the hosts without a violating construct must be accepted."""
+    PRE = 'Signal ok1 = ("signal-A", 1);\nSignal ok2 = ok1 + 1;\n'
+    return [("host", "func helper(Signal a) { return a + 1; }\n" + PRE + "Signal c = helper(ok1);\nfor it in 0..2 {\n  Signal t = ok2 + it;\n}\nSignal ok3 = ok2 * 2;\n")]
